@@ -39,8 +39,9 @@ def resolve_all(term, asg):
     nested conditions whose operands change are looked up by their *original* node"""
     return T.resolve(term, asg)
 
-def ctx_for(asg, base_rules=None, names=None):
+def ctx_for(asg, base_rules=None, names=None, cancel=False):
     ctx = P.Ctx(names)
+    ctx.cancel = cancel
     contradictory = False
     for c, v in asg.items():
         s = eq_subst(c, v)
